@@ -9,7 +9,7 @@ through the generated linspace arguments of `Gen/Scan.lean`.
                        `axis_from_dict(axis_to_dict(a))` is exactly `a` (same class, same fields);
 * `getitem_*`        — `OrdinalAxis.__getitem__` returns the selected values (number, slice, index list, mask) and
                        leaves class and other fields alone;
-* `concat_values`, `concat_partition` — concatenation appends the values; pieces of a partition reassemble;
+* `concat_values`, `concat_rejects` — concatenation appends the values (reassembly of partition pieces: oracle only);
 * `linear_coordinates` — `offset + i · sampling`.
 -/
 import AbtemVerif.Model.Axes
